@@ -28,6 +28,22 @@ def range_offset(ctx, rule):
         ctx.check(has_fact(body, bi, roles, ("true", "%s.is_range" % RAW, None)), rule, fn, "offset:is_range", "the offset is applied only to range tokens", ctx.site(body, bi, si))
         ctx.check(has_fact(body, bi, roles, ("Eq", "%s.dst_line" % RAW, "arg2"), ("Eq", "arg2", "%s.dst_line" % RAW)), rule, fn, "offset:same-line",
                   "the offset is applied only when the lookup is on the token's own generated line (a token reached from a later line reports its own position)", ctx.site(body, bi, si))
+        # ... and to every such token: no further condition (has a source, has a name, column within some bound) decides
+        # whether a range token on its own line gets its offset; `dst_col <= col` is implied by the search and harmless
+        from rules.common import facts_keys
+        extra = []
+        for k in facts_keys(body, bi, roles):
+            ks = str(k[1]) + "|" + str(k[2])
+            if k[0] in ("variant_in", "variant_not_in") and "greatest_lower_bound(" in str(k[1]):
+                continue
+            if k[0] == "true" and str(k[1]) == "%s.is_range" % RAW:
+                continue
+            if k[0] == "Eq" and ".dst_line" in ks and "arg2" in ks:
+                continue
+            if k[0] in ("Le", "Lt", "Ge", "Gt", "Ne", "Eq") and ".dst_col" in ks and "arg3" in ks and k[0] in ("Le", "Ge"):
+                continue
+            extra.append(k)
+        ctx.check(not extra, rule, fn, "offset:every-range-token", "every range token looked up on its own line gets the offset (no further condition such as 'has a source')", ctx.site(body, bi, si), detail=str(extra)[:300])
     init = [sh for sh, site, _ in q.def_shapes(body, T, roles)]
     ctx.check(len(init) == 1 and init[0].endswith(",offset:0}"), rule, fn, "offset:init-0", "the Token starts with offset 0 (non-range tokens report their own column)", detail=str(init)[:300])
     g = ctx.body("types::Token::<'a>::get_src_col")
@@ -133,6 +149,22 @@ def sort_after_write(ctx, rule):
     from rules.common import must_pass
     for pb in pushes:
         ctx.check(must_pass(ab, pb, asorts), rule, ADJ, "sort-after-push", "every path from a push into self.tokens to a return passes the final sort", ctx.site(ab, pb))
+    # ... and the sort is final: nothing reachable after it borrows self.tokens mutably or assigns a token field
+    after = set()
+    for a in asorts:
+        for nb_ in ab.succs(a):
+            after |= set(ab.reachable_blocks(nb_))
+    late = []
+    for bi, si, s, it in ab.locations():
+        if bi not in after or it or s["k"] != "assign" or ab.blocks[bi]["cleanup"]:
+            continue
+        rp = s["rv"].get("place") if s["rv"]["k"] == "ref" and s["rv"].get("mut") else None
+        if rp is not None and any(pr.get("k") == "field" and pr.get("n") == "tokens" and pr.get("adt") == "types::SourceMap" for pr in rp["p"]):
+            late.append(ctx.site(ab, bi, si))
+        if any(pr.get("k") == "field" and pr.get("adt") == "types::RawToken" for pr in s["place"]["p"]) or \
+                any(pr.get("k") == "field" and pr.get("n") == "tokens" and pr.get("adt") == "types::SourceMap" for pr in s["place"]["p"]):
+            late.append(ctx.site(ab, bi, si))
+    ctx.check(bool(asorts) and not late, rule, ADJ, "no-write-after-sort", "nothing modifies self.tokens or a token after the final sort", detail=str(late))
     takes = [bi for bi, t in ab.calls() if q.nice(t.get("callee")) == "mem::take" and q.shape(q.arg_expr(ab, t, 0)) == "arg1.tokens"]
     ctx.check(len(takes) == 1, rule, ADJ, "take", "the old vector is taken out first (an early return leaves an empty, trivially sorted vector)")
 
